@@ -65,10 +65,12 @@ Print Assumptions C05_spec_erasures.
     - [compact_fields_okb]: a [#[codec(compact)]] field whose [Compact<..>] type coincides with an
       argument records a type name different from that parameter's name;
     - [box_names_okb]: the recorded type name contains ["Box<"] exactly when the type mentions Box.
-    NOT proved: soundness of [registry_ofb] w.r.t. [RegistryOf] and the Coq re-implementation of
-    the harness interner; [RegistryOf] is proved directly for the examples. *)
-From V Require Import Base.Result Model.Settings Model.TypePath Model.Generate Model.WellFormed Model.Shape
-  Model.ProgramSkel Proofs.SourceRoundTrip Proofs.SourceSkeleton Proofs.SourceReading.
+    [registry_ofb] (the boolean the harness evaluates on every interned / compiled program) is
+    sound w.r.t. [RegistryOf] ([C05_registry_ofb_sound]) when the prelude entries carry no docs.
+    NOT proved: the Coq re-implementation of the harness interner ([intern_program]). *)
+From V Require Import Base.Result Model.Settings Model.TypePath Model.Generate Model.Equal Model.WellFormed Model.Shape
+  Model.ProgramSkel Model.ProgramTeq Model.ProgramExamples
+  Proofs.SourceRoundTrip Proofs.SourceSkeleton Proofs.SourceReading Proofs.RegistryOfSound Proofs.ProgramExamples.
 
 Theorem C05_skeleton_is_source :
   forall (defs : list sdef) (L : N -> option src) (r : registry) (s : settings) (order_tp : bool -> tpath),
@@ -239,3 +241,34 @@ Theorem C05_example :
   (exists ir, create_type_ir ex5_reg ex5_s (ex5_foo 6 7 3) flat0 = Ok (Some ir)).
 Proof. exact (conj ex5_RegistryOf (conj ex5_registry_ofb (conj ex5_settings_ok ex5_hypotheses))). Qed.
 Print Assumptions C05_example.
+
+(** the decidable checker is sound ([prelude_nodocs_b]: [registry_ofb] compares the fields and
+    variants of prelude entries up to docs, [RegistryOf] fixes them as scale-info emits them) *)
+Theorem C05_registry_ofb_sound :
+  forall defs labels r,
+    registry_ofb defs labels r = true -> prelude_nodocs_b r = true -> RegistryOf defs (label_at labels) r.
+Proof. exact registry_ofb_sound. Qed.
+Print Assumptions C05_registry_ofb_sound.
+
+(** non-vacuity on the prelude part of the fragment:
+    [a::Bar<T> { A(Option<T>, BTreeMap<u8, T>), B { bits: BitVec<u8, Lsb0>, c: Cow<'static, Vec<T>> } }]
+    at [u16] and [bool]: every hypothesis of [C05_skeleton_is_source] / [C05_fields_read_as_source]
+    holds, both IRs exist and their erased form IS [ir_of_source] (recomputed here), the registry
+    is skeleton-consistent and generation succeeds *)
+Theorem C05_example_prelude :
+  RegistryOf ex6_defs (label_at ex6_labels) ex6_reg /\
+  (prelude_okb ex6_s = true /\ order_resolves ex6_s ex6_otp /\ render_okb ex6_s ex6_defs = true) /\
+  (forall sd, In sd ex6_defs -> def_okb ex6_s sd = true) /\
+  nth_error ex6_defs 0 = Some ex6_sd /\
+  forallb (fun f => no_cow_cow (sf_ty f)) (def_sfields ex6_sd) = true /\ box_names_okb ex6_defs ex6_sd = true /\
+  forallb (fun f => apps_okb ex6_defs (sf_ty f) && field_conv_okb f) (def_sfields ex6_sd) = true /\
+  instantiation_cf ex6_defs ex6_sd [SPrimT PU16] = true /\ instantiation_cf ex6_defs ex6_sd [SPrimT PBool] = true /\
+  compact_fields_okb ex6_defs ex6_sd [SPrimT PU16] = true /\ compact_fields_okb ex6_defs ex6_sd [SPrimT PBool] = true /\
+  (exists ir, create_type_ir ex6_reg ex6_s (ex6_bar 1 2 3 10) flat0 = Ok (Some ir) /\
+              erase_ids ir = ir_of_source ex6_defs ex6_s ex6_otp ex6_sd) /\
+  (exists ir, create_type_ir ex6_reg ex6_s (ex6_bar 12 13 14 18) flat0 = Ok (Some ir) /\
+              erase_ids ir = ir_of_source ex6_defs ex6_s ex6_otp ex6_sd) /\
+  skeleton_consistentb ex6_reg ex6_s = true /\
+  is_ok (generate ex6_reg ex6_s (types_equal ex6_reg)) = true.
+Proof. exact (conj ex6_RegistryOf (conj ex6_settings_ok ex6_hypotheses)). Qed.
+Print Assumptions C05_example_prelude.
